@@ -646,8 +646,10 @@ func (g *gen) ptype() int8 {
 	return 0
 }
 
+// timeout of a request that is not meant to expire: none, negative (= none), or far beyond anything
+// the run can make a request wait in a pool queue (over-long handlers occupy workers for seconds)
 func (g *gen) timeout() int32 {
-	return []int32{0, 0, 60000, 3000, -5, math.MaxInt32}[g.rng.Intn(6)]
+	return []int32{0, 0, 600000, 86400000, -5, math.MaxInt32}[g.rng.Intn(6)]
 }
 
 // group: requests per endpoint, sent in order, each endpoint pipelined.
@@ -1354,7 +1356,7 @@ func main() {
 	n, rounds := 60, 1
 	if o.Thorough() {
 		configs = []config{{0, 0}, {1, 0}, {3, 0}, {0, handleT}, {1, handleT}, {3, handleT}}
-		n, rounds = 420, 3
+		n, rounds = 1200, 3
 	}
 	var mu sync.Mutex
 	var wg sync.WaitGroup
